@@ -191,6 +191,7 @@ Definition wf_qop (o : qop) : Prop :=
   | QWrite w => wf_wop w
   | QKeys _ => True
   | QHide _ => False       (* dataset deletion is C07's subject: the link theorem is about histories of writes *)
+  | QSplit _ _ _ _ _ _ _ _ => False
   | QRelated starts pred _ _ _ limits _ => NoDup starts /\ Forall (fun l => 0 <= l) limits /\ 0 <= pred
   end.
 (** the results of every query fit into the fuel of [follow] (checked on the repaired model's keys) *)
@@ -326,7 +327,7 @@ Lemma agree_op_spec fl dm ops rs dss o :
   (match o with QWrite _ => True | _ => (length (rs_keys rs) < fuel0)%nat end) ->
   agree_op v_fixed dss rs o = true -> spec_op_ok dss rs o = true.
 Proof.
-  intros Hr Hs Hwf Hsmall. destruct o as [w|ks|d|starts pred inverse req at_ limits o_pages]; try reflexivity.
+  intros Hr Hs Hwf Hsmall. destruct o as [w|ks|d|? ? ? ? ? ? ? ?|starts pred inverse req at_ limits o_pages]; try reflexivity; [destruct Hwf|].
   destruct Hwf as (Hnds & Hlims & Hpred).
   unfold agree_op, spec_op_ok, query_pages. cbn [v_fixed mk_variant v_q].
   destruct (negb (Z.eqb pred 0) && negb (zmem pred (rs_known rs))) eqn:Eref.
@@ -401,7 +402,7 @@ Lemma agree_run_spec dss : forall ops0 ops rs,
 Proof.
   intros ops0 ops. revert ops0. induction ops as [|o ops IH]; intros ops0 rs Hr Hwf Hsmall; [reflexivity|].
   inversion Hwf as [|? ? Ho Hops]; subst.
-  destruct o as [w|ks|d|starts pred inverse req at_ limits o_pages]; [| |destruct Ho|].
+  destruct o as [w|ks|d|? ? ? ? ? ? ? ?|starts pred inverse req at_ limits o_pages]; [| |destruct Ho|destruct Ho|].
   - cbn [agree_run spec_run small_run] in *. apply (IH (ops0 ++ [w])); try assumption.
     destruct Hr as (Hfl & Hw & ->). split; [assumption|]. split; [apply Forall_app; split; [assumption | constructor; [exact Ho | constructor]]|].
     unfold rrun. rewrite fold_left_app. reflexivity.
